@@ -60,7 +60,7 @@ def _mc(tier, recs):
     import re
     parts = set()
     for h, r in recs:
-        m = re.search(r"_f(\d+)_p(\d+)_rq(\d+)_tq(\d+)$", h.name)
+        m = re.search(r"_f(\d+)_p(\d+)(?:_a\d+)?_rq(\d+)_tq(\d+)$", h.name)
         if m:
             parts.add(tuple(int(x) for x in m.groups()))
     ops = len({h.entry for h, r in recs})
